@@ -12,21 +12,21 @@ LEVEL_TEXT = ("Lean 4 theorems for every number of fields >= 1, every common len
               "so the entries (records) of the result are exactly the selected entries of the operand (selection commutes with "
               "zipping the columns); an integer index returns that entry or refuses; iteration yields the entries in order; "
               "concatenation concatenates the entry lists; astype projects every entry onto the target's fields and refuses a missing "
-              "field; VarLenArray concatenation right-aligns every block in the widest width with zeros on the left. Tied to "
+              "field; == holds exactly when the two objects have the same entries (C18_eq); VarLenArray concatenation right-aligns every block in the widest width with zeros on the left. Tied to "
               "npdataclasses.py by correspondence on generated dataclasses with 1-4 fields (1-D and 2-D), lengths 0-5, the row-selector "
               "grammar and lists of 1-3 objects.")
 LEVEL_NOTE = ("Trusted: Lean kernel (+ standard axioms); hand model of the field-wise dispatch (tied by correspondence); numpy's own "
-              "indexing / concatenate on each field; __eq__ and text rendering are correspondence-only / not modelled.")
+              "indexing / concatenate on each field; text rendering is not modelled.")
 TECHNIQUE = "Lean 4 proof that field-wise operations commute with zipping columns into entries; correspondence"
 DESIGN_REF = "7"
-LEAN_MODULES = ["NpsVerif.Props.C18"]
+LEAN_MODULES = ["NpsVerif.Props.C18", "NpsVerif.Props.C18B"]
 KERNELS = ()
 RULE = ("cases = generated dataclass (1..4 fields, each 1-D int / float or 2-D of width 1..3) x common length 0..5 (or deliberately "
         "unequal lengths for the constructor) x operation (constructor, len, index with int / slice / list / mask incl. out-of-range, "
         "iteration, concatenate of 1..3 objects, ==, astype to a narrower / incompatible class, VarLenArray concatenate of 1..3 "
         "matrices of different widths); distinct = distinct (fields, operation); non-trivial = length >= 2 and >= 2 fields")
 EXHAUSTIVE = {"quick": False, "thorough": False}
-CORRESPONDENCE_ONLY = ["__eq__", "dtypes of fields"]
+CORRESPONDENCE_ONLY = ["dtypes of fields", "broadcasting inside a field comparison (fields of different widths)"]
 ASSUMPTIONS = []
 
 _classes = {}
